@@ -3,6 +3,7 @@
 package c16
 
 import (
+	"bytes"
 	"encoding/hex"
 	"encoding/json"
 	"fmt"
@@ -380,6 +381,40 @@ func TestC16(t *testing.T) {
 			}
 			return
 		}
+		// every message number: two records of message g carrying field 250,
+		// for every g from 1 to 65534 (65535 is the invalid number), decoded with both unknown options: g
+		// is tallied as an unknown message exactly if the profile does not
+		// know it, otherwise its field 250 as an unknown field (first shard)
+		if hx.FirstShard() {
+			ng, failed := int64(0), 0
+			for g := 1; g <= 0xFFFE && failed < 3; g++ {
+				st := &fitmodel.Stream{HeaderSize: 12, Proto: 0x20, Recs: []fitmodel.Rec{
+					{IsDef: true, Global: 0, Fields: []fitmodel.FieldDef{{Num: 0, Size: 1, Base: 0}}}, {Raw: []byte{4}},
+					{IsDef: true, Local: 1, Global: uint16(g), Fields: []fitmodel.FieldDef{{Num: 250, Size: 1, Base: 2}}},
+					{Local: 1, Raw: []byte{1}}, {Local: 1, Raw: []byte{2}},
+				}}
+				f, err := fit.Decode(bytes.NewReader(st.Bytes()), fit.WithUnknownMessages(), fit.WithUnknownFields())
+				ng++
+				um, uf := tallies(st, len(st.Recs))
+				gotM, gotF := map[uint16]int{}, map[[2]uint16]int{}
+				if f != nil {
+					for _, m := range f.UnknownMessages {
+						gotM[uint16(m.MesgNum)] += m.Count
+					}
+					for _, u := range f.UnknownFields {
+						gotF[[2]uint16{uint16(u.MesgNum), uint16(u.FieldNum)}] += u.Count
+					}
+				}
+				if err != nil || fmt.Sprint(gotM) != fmt.Sprint(um) || fmt.Sprint(gotF) != fmt.Sprint(uf) {
+					failed++
+					c := optCase{FileType: 4, Stream: st, Chunk: gen.NoFault("whole", 0), Text: st.String()}
+					rec.Fail("every-message-number", "", fmt.Sprintf("two records of message %d with field 250: err=%v, unknown messages %v (want %v), unknown fields %v (want %v)", g, err, gotM, um, gotF, uf), c)
+				}
+			}
+			rec.Eval("every-message-number", ng)
+			rec.NonTrivialEnum(ng)
+		}
+
 		// long runs: one unlisted field number and one unknown message number
 		// carried by tens of thousands of records (the counts are counts of
 		// records, whatever their number)
